@@ -525,6 +525,12 @@ func (a *X11Locks) Walk(f *Func, entry map[string]int8, onNode func(g *Graph, n 
 
 // RuleLocksP is RuleLocks on the refined flow (same tables, same report keys).
 func RuleLocksP(r *Report, p *Prog, a *X11Locks, rules *LockRules, rule string, minAccesses int) {
+	if ext, inferred := InferCallerHolds(p, rules); len(inferred) > 0 {
+		rules = ext
+		for _, name := range inferred {
+			r.Note("%s: %s is not in the lock table; it touches guarded state of its receiver without locking and is only ever called, so it is checked as a caller-holds helper at its call sites", rule, name)
+		}
+	}
 	pk := p.Pkg(rules.Pkg)
 	if pk == nil {
 		r.Bad("anchor", rules.Pkg, "unresolved", "-", "package not loaded")
